@@ -275,8 +275,13 @@ class Check:
             "violations": len(self.violations),
             "known_findings_seen": self.known_seen,
         }
-        os.makedirs(os.path.join(VERIF, "evidence"), exist_ok=True)
-        with open(os.path.join(VERIF, "evidence", f"{self.pid}.json"), "w") as fh:
+        # evidence/ only ever describes runs against /repo itself; runs against a
+        # scratch tree (VERIF_REPO, used to test the checks on seeded changes) write elsewhere
+        evdir = os.environ.get("VERIF_EVIDENCE_DIR") or (
+            os.path.join(VERIF, "evidence") if os.path.realpath(REPO) == "/repo"
+            else os.path.join(VERIF, "replays", "scratch-evidence"))
+        os.makedirs(evdir, exist_ok=True)
+        with open(os.path.join(evdir, f"{self.pid}.json"), "w") as fh:
             json.dump(ev, fh, indent=1, default=str)
         for w in self.known_seen:
             print(f"KNOWN-FINDING: property={self.pid} {w}")
